@@ -236,6 +236,15 @@ func (e *Enc) load(st *State, a Addr, t types.Type) Val {
 	v, _ := e.unflatten(t, ts)
 	if a.Kind == AGlobal && a.I == nil {
 		e.sentinelGlobal(a, t, ts)
+		if cv := e.eng.constGlobal(a.G); cv != nil && len(ts) == 1 {
+			// package variable with a constant initialiser that is never assigned elsewhere
+			c := e.constVal(cv).(T)
+			if k := "constglob:" + ts[0].S; !e.rangeSeen[k] {
+				e.rangeSeen[k] = true
+				e.s.Assume(Eq(ts[0], c))
+				e.note("package variable " + shortKey(a.G.String()) + " holds its constant initial value (checked: no other assignment in the package; unexported or assumed not assigned from outside)")
+			}
+		}
 	}
 	return v
 }
@@ -341,7 +350,14 @@ func (e *Enc) havocKey(st *State, key string, why string) {
 }
 
 func (e *Enc) noteWrite(key string) {
-	for _, w := range e.writeLogs {
+	for i, w := range e.writeLogs {
+		if i < len(e.loopLogOwner) && e.loopLogOwner[i] != nil {
+			li := e.loopLogOwner[i]
+			// only writes performed while the owning frame is inside the loop body count
+			if li.frame != nil && !li.body[li.frame.curB] {
+				continue
+			}
+		}
 		w[key] = true
 	}
 }
